@@ -189,6 +189,13 @@ def impl_run(case):
         if dp is not None: kw['device_params'] = dp
         if ep or case.get('ep_present'): kw['errors_params'] = ep
         with patched_transports(server):
+            if case.get('prior') is not None:
+                # an application that passes ONE manager_params / errors-free settings object to several connects:
+                # an earlier connect (other raise mode, other ignore list) must not influence this one
+                shared = {'timeout': 7}
+                getattr(manager, route)(host='other', manager_params=shared,
+                                        errors_params={'raise_mode': case['prior'], 'ignore_errors': ['*earlier session*']})
+                kw['manager_params'] = shared
             m = getattr(manager, route)(**kw)
     out = {}
     try:
@@ -405,8 +412,11 @@ def gen_random(rng, n, profiles):
         user = rng.choice(USER_PATS)
         route = rng.choice(['direct', 'direct', 'connect_ssh', 'connect_tls', 'connect_uds'])
         if route != 'direct' and mode is not None and mode not in (0, 1, 2): mode = 2
+        extra = {}
+        if route != 'direct' and rng.random() < 0.35:
+            extra['prior'] = rng.choice([m2 for m2 in (0, 1, 2) if m2 != mode])
         cases.append(mk_case(rep, mode, prof, ppats, user, route, op=rng.choice(['lock', 'lock', 'get_config', 'discard']),
-                             ep_present=rng.random() < 0.5))
+                             ep_present=rng.random() < 0.5, **extra))
     return cases
 
 def gen_profiles(profiles):
